@@ -46,6 +46,7 @@ func checkC17(r *Run) {
 	r.Rule("C17.R4.hooks", "tx.Commit runs cleanups(err == nil) after the underlying commit, tx.Close runs cleanups(false); the overlay cleanup deletes the tx's delta and flushes only on commit", 4)
 	r.Rule("C17.R5.GUARD", "committed index state (LookupIndex.forward/reverse, SortedIndex.entries/reverse, deltaOverlay.txDeltas, txState.cleanups) is accessed under its mutex", 20)
 	r.Rule("C17.R5.populate", "OpenTable starts every index's populate (which takes the index lock) before attaching the change observer", 1)
+	r.Rule("C17.R7.alias", "no exported method of LookupIndex / SortedIndex returns a slice that aliases lock-guarded index storage (forward buckets, entries): what leaves the lock is a copy, because a concurrent set/delete shifts the bucket in place", 2)
 	r.Rule("C17.R6.delta", "delta.stageSet/stageDelete store d.state[key] on every path; attachIndexObserver applies set/delete inside the single loop over the change batch", 3)
 
 	checkWriterStaging(r, p)
@@ -53,6 +54,7 @@ func checkC17(r *Run) {
 	checkTableOnly(r, p)
 	checkTxHooks(r, p)
 	checkIndexGuards(r, p)
+	checkIndexAliasEscape(r, p)
 	checkDeltaAndObserver(r, p)
 }
 
@@ -494,5 +496,241 @@ func checkDeltaAndObserver(r *Run, p *Prog) {
 		})
 		r.Ob("C17.R6.delta", "the change observer applies sets and deletes in batch order", p.Position(l.Pos()), loop != nil && nIn >= 2 && nOut == 0,
 			fmt.Sprintf("index set/delete calls inside the loop over the batch: %d, outside: %d (buffering sets and deletes separately turns 'delete k; set k' into 'set k; delete k')", nIn, nOut))
+	}
+}
+
+// ---------------------------------------------------------------------------------
+// C17.R7: which API can hand out a reference to shared storage. A small summary-based
+// may-alias analysis over package gorp: an expression aliases guarded storage when it
+// indexes/slices a guarded field, is a local assigned from such an expression, is the
+// result of a function whose summary says "returns storage" or "returns parameter i" with
+// an aliasing argument, or append(alias, ...). slices.Clone, make+copy and
+// append(<non-alias>, alias...) produce fresh storage.
+// ---------------------------------------------------------------------------------
+
+type aliasSummary struct {
+	storage bool         // may return guarded storage
+	params  map[int]bool // may return parameter i (slices only)
+}
+
+func checkIndexAliasEscape(r *Run, p *Prog) {
+	guarded := map[*types.Var]bool{}
+	for _, spec := range [][2]string{{"LookupIndex", "forward"}, {"SortedIndex", "entries"}} {
+		if f := p.FieldOf(gorpPkg, spec[0], spec[1]); f != nil {
+			guarded[f] = true
+		}
+	}
+	if len(guarded) < 2 {
+		r.Undecide("C17.R7: LookupIndex.forward / SortedIndex.entries not found")
+		return
+	}
+	funcs := p.FuncsOfPkg(gorpPkg)
+	sum := map[*FuncNode]*aliasSummary{}
+	for _, fn := range funcs {
+		if fn.Decl != nil && fn.Body != nil {
+			sum[fn] = &aliasSummary{params: map[int]bool{}}
+		}
+	}
+	isSliceT := func(t types.Type) bool {
+		if t == nil {
+			return false
+		}
+		_, ok := t.Underlying().(*types.Slice)
+		return ok
+	}
+	type env struct {
+		fn      *FuncNode
+		storage map[types.Object]bool
+		param   map[types.Object]map[int]bool
+	}
+	var aliasOf func(e *env, x ast.Expr) (bool, map[int]bool)
+	aliasOf = func(e *env, x ast.Expr) (bool, map[int]bool) {
+		x = ast.Unparen(x)
+		fn := e.fn
+		switch v := x.(type) {
+		case *ast.Ident:
+			o := objOf(fn, v)
+			if o == nil {
+				return false, nil
+			}
+			return e.storage[o], e.param[o]
+		case *ast.SelectorExpr:
+			if f := fieldVar(fn, v); f != nil && guarded[f] && isSliceT(f.Type()) {
+				return true, nil
+			}
+		case *ast.IndexExpr:
+			if sel, ok := ast.Unparen(v.X).(*ast.SelectorExpr); ok {
+				if f := fieldVar(fn, sel); f != nil && guarded[f] {
+					if tv, ok := fn.Pkg.TypesInfo.Types[x]; ok && isSliceT(tv.Type) {
+						return true, nil
+					}
+				}
+			}
+		case *ast.SliceExpr:
+			return aliasOf(e, v.X)
+		case *ast.CallExpr:
+			if tv, ok := fn.Pkg.TypesInfo.Types[v.Fun]; ok && tv.IsType() && len(v.Args) == 1 {
+				return aliasOf(e, v.Args[0])
+			}
+			switch c := Callee(fn, v).(type) {
+			case *types.Builtin:
+				if c.Name() == "append" && len(v.Args) > 0 {
+					return aliasOf(e, v.Args[0])
+				}
+				return false, nil
+			case *types.Func:
+				f := c.Origin()
+				if f.Pkg() != nil && (f.Pkg().Path() == "slices" || f.Pkg().Path() == "maps") {
+					return false, nil // Clone, Collect, Sorted ... allocate
+				}
+				callee, ok := p.ByObj[f]
+				if !ok {
+					return false, nil
+				}
+				cs := sum[callee]
+				if cs == nil {
+					return false, nil
+				}
+				st, pm := cs.storage, map[int]bool{}
+				for i := range cs.params {
+					if i < len(v.Args) {
+						a, ap := aliasOf(e, v.Args[i])
+						st = st || a
+						for k := range ap {
+							pm[k] = true
+						}
+					}
+				}
+				return st, pm
+			}
+		}
+		return false, nil
+	}
+	analyse := func(fn *FuncNode) (bool, map[int]bool, []*ast.ReturnStmt) {
+		e := &env{fn: fn, storage: map[types.Object]bool{}, param: map[types.Object]map[int]bool{}}
+		for i := 0; ; i++ {
+			po := paramObj(fn, i)
+			if po == nil {
+				break
+			}
+			if isSliceT(po.Type()) {
+				e.param[po] = map[int]bool{i: true}
+			}
+		}
+		// flow-insensitive closure over assignments
+		for changed, iter := true, 0; changed && iter < 10; iter++ {
+			changed = false
+			inspectNoLit(fn.Body, func(x ast.Node) bool {
+				as, ok := x.(*ast.AssignStmt)
+				if !ok {
+					return true
+				}
+				for i, l := range as.Lhs {
+					o := objOf(fn, l)
+					if o == nil || !isSliceT(o.Type()) {
+						continue
+					}
+					var rhs ast.Expr
+					if len(as.Lhs) == len(as.Rhs) {
+						rhs = as.Rhs[i]
+					} else if len(as.Rhs) == 1 && i == 0 {
+						rhs = as.Rhs[0]
+					}
+					if rhs == nil {
+						continue
+					}
+					st, pm := aliasOf(e, rhs)
+					if st && !e.storage[o] {
+						e.storage[o] = true
+						changed = true
+					}
+					for k := range pm {
+						if e.param[o] == nil {
+							e.param[o] = map[int]bool{}
+						}
+						if !e.param[o][k] {
+							e.param[o][k] = true
+							changed = true
+						}
+					}
+				}
+				return true
+			})
+		}
+		storage, params := false, map[int]bool{}
+		var bad []*ast.ReturnStmt
+		inspectNoLit(fn.Body, func(x ast.Node) bool {
+			ret, ok := x.(*ast.ReturnStmt)
+			if !ok {
+				return true
+			}
+			for _, res := range ret.Results {
+				if tv, ok := fn.Pkg.TypesInfo.Types[res]; !ok || !isSliceT(tv.Type) {
+					continue
+				}
+				st, pm := aliasOf(e, res)
+				if st {
+					storage = true
+					bad = append(bad, ret)
+				}
+				for k := range pm {
+					params[k] = true
+				}
+			}
+			return true
+		})
+		return storage, params, bad
+	}
+	for changed, iter := true, 0; changed && iter < 12; iter++ {
+		changed = false
+		for fn, s := range sum {
+			st, pm, _ := analyse(fn)
+			if st != s.storage {
+				s.storage = st
+				changed = true
+			}
+			for k := range pm {
+				if !s.params[k] {
+					s.params[k] = true
+					changed = true
+				}
+			}
+		}
+	}
+	n := 0
+	var names []string
+	byName := map[string]*FuncNode{}
+	for fn := range sum {
+		names = append(names, fn.Name)
+		byName[fn.Name] = fn
+	}
+	sort.Strings(names)
+	for _, nm := range names {
+		fn := byName[nm]
+		rn := recvName(fn.Decl)
+		if !(strings.Contains(rn, "LookupIndex") || strings.Contains(rn, "SortedIndex")) || !fn.Decl.Name.IsExported() {
+			continue
+		}
+		returnsSlice := false
+		if fn.Type.Results != nil {
+			for _, f := range fn.Type.Results.List {
+				if tv, ok := fn.Pkg.TypesInfo.Types[f.Type]; ok && isSliceT(tv.Type) {
+					returnsSlice = true
+				}
+			}
+		}
+		if !returnsSlice {
+			continue
+		}
+		n++
+		st, _, bad := analyse(fn)
+		pos := p.Position(fn.Pos())
+		if len(bad) > 0 {
+			pos = posOf(p, bad[0])
+		}
+		r.Ob("C17.R7.alias", fn.Name+" returns fresh storage", pos, !st, "a returned slice may alias a lock-guarded index bucket; after the lock is released a concurrent set/delete rewrites it under the caller (an indexed query then skips rows the scan returns)")
+	}
+	if n < 2 {
+		r.Undecide("C17.R7: only %d exported slice-returning index methods found (expected 2)", n)
 	}
 }
